@@ -40,7 +40,7 @@ ASSUMPTIONS = {'C10': ['overlapping calls of the same function that both rely on
                        'not covered: dependence of results on the caller\'s own np.seterr settings, on warning filters, on the BLAS thread count, on OS entropy (a call that CHANGES the error state is reported)']}
 EXPECTED_PROBES = {'C10': ['context_switch_inside_call', 'draw_yield_points', 'callback_yield_points', 'default_dict_calls', 'generator_object_calls',
                            'repeated_calls']}
-BUDGET = {'C10': {'quick': {'n': 5000, 'max_s': 150, 'chunk': 20}, 'thorough': {'n': 100000, 'max_s': 3000, 'chunk': 25}}}
+BUDGET = {'C10': {'quick': {'n': 5000, 'max_s': 150, 'chunk': 20}, 'thorough': {'n': 200000, 'max_s': 3000, 'chunk': 25}}}
 NAMES = sorted(api.ENTRIES)
 SEEDED = [nm for nm in NAMES if nm in ('anova_from_file', 'rand', 'rand_norm', 'rand_stab', 'core_qr_rand', 'sample', 'sample_square', 'sample_lhs', 'sample_rand',
                                        'sample_rand_poi', 'sample_tt', 'sample_func', 'anova', 'ANOVA', 'cross_act')]
